@@ -35,6 +35,18 @@ enum Task {
     Race(u64, Expr, u64, Expr, usize, Box<Task>),
 }
 #[derive(Clone, Debug)]
+enum Rb { Req(u64, Expr), Map(Box<Rb>, u64), ThenReq(Box<Rb>, u64) }
+#[derive(Clone, Debug)]
+enum Sb { Str(u64, Expr), Map(Box<Sb>, u64), ThenReq(Box<Sb>, u64), OfReq(Box<Rb>, u64) }
+impl Rb {
+    fn coq(&self) -> String { match self { Rb::Req(t, e) => format!("(RbReq {} {})", t, e.coq()), Rb::Map(r, n) => format!("(RbMap {} {})", r.coq(), n), Rb::ThenReq(r, t) => format!("(RbThenReq {} {})", r.coq(), t) } }
+    fn size(&self) -> usize { match self { Rb::Req(..) => 1, Rb::Map(r, _) | Rb::ThenReq(r, _) => 1 + r.size() } }
+}
+impl Sb {
+    fn coq(&self) -> String { match self { Sb::Str(t, e) => format!("(SbStr {} {})", t, e.coq()), Sb::Map(r, n) => format!("(SbMap {} {})", r.coq(), n), Sb::ThenReq(r, t) => format!("(SbThenReq {} {})", r.coq(), t), Sb::OfReq(r, t) => format!("(SbOfReq {} {})", r.coq(), t) } }
+    fn size(&self) -> usize { match self { Sb::Str(..) => 1, Sb::Map(r, _) | Sb::ThenReq(r, _) => 1 + r.size(), Sb::OfReq(r, _) => 1 + r.size() } }
+}
+#[derive(Clone, Debug)]
 enum Cmd {
     New(Task, Vec<Task>),
     Then(Box<Cmd>, Box<Cmd>),
@@ -46,6 +58,8 @@ enum Cmd {
     IdEv(Box<Cmd>),
     Into(Box<Cmd>),
     Abortable(u64, Box<Cmd>),
+    SendR(Rb, u64),
+    SendS(Sb, u64),
 }
 #[derive(Clone, Debug)]
 enum Action { Effects, Events, IsDone, Resolve(u64, u64, u64, u64), DropReq(u64, u64, u64), Abort(u64), Event(u64, u64) }
@@ -103,6 +117,8 @@ impl Cmd {
             Cmd::IdEv(c) => format!("(CIdEv {})", c.coq()),
             Cmd::Into(c) => format!("(CInto {})", c.coq()),
             Cmd::Abortable(n, c) => format!("(CAbortable {} {})", n, c.coq()),
+            Cmd::SendR(r, t) => format!("(CSendR {} {})", r.coq(), t),
+            Cmd::SendS(r, t) => format!("(CSendS {} {})", r.coq(), t),
         }
     }
     fn size(&self) -> usize {
@@ -111,11 +127,12 @@ impl Cmd {
             Cmd::Then(a, b) | Cmd::And(a, b) => 1 + a.size() + b.size(),
             Cmd::All(cs) => 1 + cs.iter().map(|c| c.size()).sum::<usize>(),
             Cmd::MapEff(_, c) | Cmd::MapEv(_, c) | Cmd::IdEff(c) | Cmd::IdEv(c) | Cmd::Into(c) | Cmd::Abortable(_, c) => 1 + c.size(),
+            Cmd::SendR(r, _) => 2 + r.size(), Cmd::SendS(r, _) => 2 + r.size(),
         }
     }
     fn depth(&self) -> usize {
         match self {
-            Cmd::New(..) => 0,
+            Cmd::New(..) | Cmd::SendR(..) | Cmd::SendS(..) => 0,
             Cmd::Then(a, b) | Cmd::And(a, b) => 1 + a.depth().max(b.depth()),
             Cmd::All(cs) => 1 + cs.iter().map(|c| c.depth()).max().unwrap_or(0),
             Cmd::MapEff(_, c) | Cmd::MapEv(_, c) | Cmd::IdEff(c) | Cmd::IdEv(c) | Cmd::Abortable(_, c) => 1 + c.depth(),
@@ -124,13 +141,14 @@ impl Cmd {
     }
     fn hist(&self, h: &mut HashMap<&'static str, u64>) {
         let name = match self { Cmd::New(..) => "CNew", Cmd::Then(..) => "CThen", Cmd::And(..) => "CAnd", Cmd::All(..) => "CAll", Cmd::MapEff(..) => "CMapEff",
-            Cmd::MapEv(..) => "CMapEv", Cmd::IdEff(..) => "CIdEff", Cmd::IdEv(..) => "CIdEv", Cmd::Into(..) => "CInto", Cmd::Abortable(..) => "CAbortable" };
+            Cmd::MapEv(..) => "CMapEv", Cmd::IdEff(..) => "CIdEff", Cmd::IdEv(..) => "CIdEv", Cmd::Into(..) => "CInto", Cmd::Abortable(..) => "CAbortable", Cmd::SendR(..) => "CSendR", Cmd::SendS(..) => "CSendS" };
         *h.entry(name).or_default() += 1;
         match self {
             Cmd::New(m, ex) => { m.hist(h); for t in ex { t.hist(h); } }
             Cmd::Then(a, b) | Cmd::And(a, b) => { a.hist(h); b.hist(h); }
             Cmd::All(cs) => for c in cs { c.hist(h); },
             Cmd::MapEff(_, c) | Cmd::MapEv(_, c) | Cmd::IdEff(c) | Cmd::IdEv(c) | Cmd::Into(c) | Cmd::Abortable(_, c) => c.hist(h),
+            Cmd::SendR(..) | Cmd::SendS(..) => {}
         }
     }
 }
@@ -225,6 +243,28 @@ fn exec<'a>(t: &'a Task, env: &'a mut Env, ctx: &'a Ctx) -> BoxFuture<'a, ()> {
 }
 
 type Aborts = Arc<Mutex<Vec<(u64, Box<dyn Fn() + Send>)>>>;
+// builder chains through the real builder API (command/builder.rs); every stage is boxed so that the
+// recursion over the AST has one type
+type RBld = crux_core::command::RequestBuilder<Eff, Ev, BoxFuture<'static, u64>>;
+type SBld = crux_core::command::StreamBuilder<Eff, Ev, futures::stream::BoxStream<'static, u64>>;
+fn build_rb(r: &Rb, env: &[u64]) -> RBld {
+    match r {
+        Rb::Req(tg, e) => { let op = Op { tag: *tg, val: e.eval(env) }; RBld::new(move |ctx| C::request_from_shell(op).into_future(ctx).boxed()) }
+        Rb::Map(r, n) => { let inner = build_rb(r, env); let n = *n; RBld::new(move |ctx| inner.map(move |v| v + n).into_future(ctx).boxed()) }
+        Rb::ThenReq(r, tg) => { let inner = build_rb(r, env); let tg = *tg;
+            RBld::new(move |ctx| inner.then_request(move |v| C::request_from_shell(Op { tag: tg, val: v })).into_future(ctx).boxed()) }
+    }
+}
+fn build_sb(s: &Sb, env: &[u64]) -> SBld {
+    match s {
+        Sb::Str(tg, e) => { let op = Op { tag: *tg, val: e.eval(env) }; SBld::new(move |ctx| C::stream_from_shell(op).into_stream(ctx).boxed()) }
+        Sb::Map(r, n) => { let inner = build_sb(r, env); let n = *n; SBld::new(move |ctx| inner.map(move |v| v + n).into_stream(ctx).boxed()) }
+        Sb::ThenReq(r, tg) => { let inner = build_sb(r, env); let tg = *tg;
+            SBld::new(move |ctx| inner.then_request(move |v| C::request_from_shell(Op { tag: tg, val: v })).into_stream(ctx).boxed()) }
+        Sb::OfReq(r, tg) => { let inner = build_rb(r, env); let tg = *tg;
+            SBld::new(move |ctx| inner.then_stream(move |v| C::stream_from_shell(Op { tag: tg, val: v })).into_stream(ctx).boxed()) }
+    }
+}
 fn build(c: &Cmd, env0: &Env, aborts: &Aborts) -> C {
     match c {
         Cmd::New(m, ex) => {
@@ -244,6 +284,8 @@ fn build(c: &Cmd, env0: &Env, aborts: &Aborts) -> C {
         Cmd::IdEff(c) => build(c, env0, aborts).map_effect(|e| e),
         Cmd::IdEv(c) => build(c, env0, aborts).map_event(|e| e),
         Cmd::Into(c) => build(c, env0, aborts).into::<Eff, Ev>(),
+        Cmd::SendR(r, t) => { let t = *t; build_rb(r, &env0.vars).then_send(move |v| Ev { tag: t, val: v, maps: vec![] }) }
+        Cmd::SendS(r, t) => { let t = *t; build_sb(r, &env0.vars).then_send(move |v| Ev { tag: t, val: v, maps: vec![] }) }
         Cmd::Abortable(n, c) => { let cmd = build(c, env0, aborts); let ah = cmd.abort_handle(); aborts.lock().unwrap().push((*n, Box::new(move || ah.abort()))); cmd }
     }
 }
@@ -311,7 +353,13 @@ impl Gen {
         let r = if depth == 0 { self.rng.below(40) } else { self.rng.below(100) };
         match r {
             0..=39 => {
-                match self.rng.below(8) {
+                match self.rng.below(11) {
+                    8 => { let mut r = Rb::Req(self.tag(), self.expr(nvars));
+                           for _ in 0..self.rng.below(3) { r = if self.rng.coin(1, 2) { Rb::Map(Box::new(r), 1 + self.rng.below(3)) } else { Rb::ThenReq(Box::new(r), self.tag()) }; }
+                           let e = self.evtag(); Cmd::SendR(r, e) }
+                    9 | 10 => { let mut s = if self.rng.coin(1, 3) { Sb::OfReq(Box::new(Rb::Req(self.tag(), self.expr(nvars))), self.tag()) } else { Sb::Str(self.tag(), self.expr(nvars)) };
+                           for _ in 0..self.rng.below(3) { s = if self.rng.coin(1, 2) { Sb::Map(Box::new(s), 1 + self.rng.below(3)) } else { Sb::ThenReq(Box::new(s), self.tag()) }; }
+                           let e = self.evtag(); Cmd::SendS(s, e) }
                     0 => Cmd::New(Task::Ret, vec![]),
                     1 => { let t = self.evtag(); Cmd::New(Task::Emit(t, Expr::K(self.rng.below(4)), Box::new(Task::Ret)), vec![]) }
                     2 => { let t = self.tag(); let e = self.evtag(); Cmd::New(Task::Req(t, self.expr(nvars), 0, Box::new(Task::Emit(e, Expr::V(0), Box::new(Task::Ret)))), vec![]) }
@@ -381,8 +429,10 @@ fn run_direct(c: &Cmd, rng: &mut Rng, names: &[u64], nsteps: usize, fixed: Optio
     let mut held: Vec<Held> = vec![];
     let mut acts = vec![]; let mut obs = vec![];
     let total = fixed.map(|f| f.len()).unwrap_or(nsteps + 6);
+    let skip_initial = fixed.is_none() && !names.is_empty() && rng.coin(1, 3);
     for i in 0..total {
         let a = if let Some(f) = fixed { f[i].clone() }
+                else if i < 3 && skip_initial { if i == 0 { Action::Abort(*rng.pick(names)) } else { pick_action(rng, &held, names, false, &[]) } }
                 else if i < 3 { [Action::Effects, Action::Events, Action::IsDone][i].clone() }
                 else if i >= total - 3 { [Action::Effects, Action::Events, Action::IsDone][i - (total - 3)].clone() }
                 else { pick_action(rng, &held, names, false, &[]) };
